@@ -168,7 +168,11 @@ def cl_enc_oracle(case, impl):
 def ffi_finding_key(case, impl, model):
     """open findings of the C ABI, by call site"""
     t = case.split()
-    if len(t) > 3 and t[0] == "ffi" and t[1] == "op" and t[3] == "qfull" and "TooManyRequests,Shutdown" in impl:
+    # F10 is exactly this: everything is as specified except that the callback of the REFUSED third
+    # request receives Shutdown instead of an error that says "queue full".  Any other deviation of
+    # a qfull run (an earlier request refused, a callback fired twice, the task gone) is not F10.
+    if len(t) > 3 and t[0] == "ffi" and t[1] == "op" and t[3] == "qfull" and \
+            impl.replace("r3:TooManyRequests,Shutdown ", "r3:TooManyRequests,TooManyRequests ") == model.split(" || ")[0]:
         return "F10-queue-full-shutdown"
     return None
 
